@@ -79,6 +79,9 @@ Inductive op :=
 | ORestoreM (d id : N) (dirs : list N) (same : bool) (o : own) (nb : nbmode)
     (* restore from the handles (id, dir) of several instances (or of one named instance), into a fresh directory or - same -
        into the directory of the first handle (the surviving instance is redeployed in place) *)
+| ORestoreF (d : N) (same : bool)
+    (* a restore (into the source's directory - same - or a fresh one) during which one storage read of a WAL file fails: the log
+       reader hands the error to DB.Start, Open does not return a database; a dead object is left behind *)
 | OOpen (d : N)                                                    (* a further fresh database in a fresh directory *)
 | OCrash (d : N)
 | ODrop (d : N)
@@ -464,6 +467,7 @@ Fixpoint step (w : world) (o : op) : world :=
           let gone := if same then map fst (filter (fun h => (snd h =? dir) && negb (fst h =? id)) (g_handles w)) else [] in
           add_db (add_dropped w gone) x (negb same)
       end
+  | ORestoreF _ same => add_db w (dead_db w) (negb same)
   | OOpen _ => add_db w (mkW (db_new (g_mem w) (g_walmax w)) (g_nextdir w) OwnAll NbNone 0 [] [] FNone 0 CNone 0 [] [] Live) true
   | OCrash d => match get_db w d with Some x => set_db w d (with_state x Crashed) | None => w end
   | ODrop d => match get_db w d with Some x => set_db w d (with_state x Dropped) | None => w end
